@@ -418,7 +418,7 @@ def columns_of(case, mlen):
     return [tuple(s[i * mlen:(i + 1) * mlen] for s in rows) for i in range(L)]
 
 
-def brute_column(tree, P, pi, leafsets, n, limit=300000):
+def brute_column(tree, P, pi, leafsets, n, limit=70000):
     """sum over all assignments of a state to every internal node of
     pi[root] * prod_{edges} P_e[parent][child]; a leaf contributes the sum over its compatible set.
     Returns None when the enumeration would be too large."""
